@@ -38,7 +38,11 @@ let run_script cfgline lines =
       let n k = n_of_int (geti kv k) in
       let act =
         match name with
-        | "call" -> Some (ACall (n "c", n "k", geti_d kv "opt" 0 = 1, geti_d kv "req" 0 = 1))
+        | "call" ->
+            if geti_d kv "nopoll" 0 = 1
+            then Some (ACallNoPoll (n "c", n "k", geti_d kv "opt" 0 = 1, geti_d kv "req" 0 = 1))
+            else Some (ACall (n "c", n "k", geti_d kv "opt" 0 = 1, geti_d kv "req" 0 = 1))
+        | "kill" -> Some AKillAll
         | "opt" -> Some (AOpt (n "c", (match gets_d kv "res" "miss" with
                                        | "hit" -> OHit (n "v") | "miss" -> OMiss | _ -> OErr)))
         | "req" -> Some (AReq (n "f", (match gets_d kv "res" "ok" with
